@@ -582,10 +582,9 @@ impl<'a> Planner<'a> {
     ) -> Result<Option<&'a PhysicalOperator<'a>>> {
         use crate::sql::ast::{BinaryOperator, ColumnRef};
 
-        if !matches!(
-            join.join_type,
-            JoinType::Inner | JoinType::Left | JoinType::Right
-        ) {
+        // The index nested-loop executor emits unmatched OUTER rows only (LEFT); it has no
+        // pass over unmatched inner rows, so a RIGHT join must take another algorithm.
+        if !matches!(join.join_type, JoinType::Inner | JoinType::Left) {
             return Ok(None);
         }
 
